@@ -654,9 +654,9 @@ fn confirm_send_relock() -> Result<Confirmed, String> {
     Ok(Confirmed { deadlocks: new_deadlocks(before), completed: ended, note: if ended { String::new() } else { "the session did not reach its final state".into() } })
 }
 
-/// CONFIRMATION of the remaining cycle `D>D` (known finding C17-D-D): `a[a]` in an rfsm-expression
-/// locks the cell of `a` (`ExpressionIndex::execute#0`) and then the same cell as the index (`#1`),
-/// under the session's global data: the session thread never returns.
+/// REGRESSION scenario of the `D>D` instance `a[a]` (repaired): an rfsm-expression used to lock the
+/// cell of `a` (`ExpressionIndex::execute`) and then the same cell as the index, under the session's
+/// global data, and the session thread never returned.  Now the index is read first and released.
 fn confirm_d_d() -> Result<Confirmed, String> {
     let before = vs::deadlocks().len();
     let executor = FsmExecutor::new_without_io_processor();
@@ -1020,7 +1020,9 @@ fn run_confirmation(c: &str, table: &Table, model: &mut Model, rep: &mut Report,
     let before = vs::deadlocks().len();
     let line = site_line(table, "src/fsm.rs|start_fsm_with_data_and_finish_mode#5");
     let line_e = site_line(table, "src/fsm_executor.rs|FsmExecutor::get_session_sender#0");
-    let regression = c != "D>D";
+    // since `a[a]` is repaired (C11/P4: the index is read before the container is locked) the `D>D`
+    // scenario is a regression scenario like the others: a deadlock or a hang is an oracle failure
+    let regression = true;
     let c2 = c.to_string();
     let (fin, res) = watched(&format!("c17-confirm-{}", c), Duration::from_secs(12), false, move || match c2.as_str() {
         "E>P>E" => confirm_e_p(line, line_e),
